@@ -525,6 +525,7 @@ def compare_cases(ctx, res, cases, impl, model, sig=None, norm=None, nontrivial=
             s = sig(c, region, dk, im, m) if sig else "%s:%s" % (region, ",".join(sorted(dk)))
             res.violations.append({"case": c["sexp"], "region": region, "differing_keys": dk, "sig": s,
                                    "impl": im, "spec": ref, "model": m["model"], "cmd": c.get("cmd", ""),
+                                   "detail": c.get("detail", {}), "input_files": c.get("files", {}),
                                    "why": "implementation differs from the property's specification on " + ", ".join(dk)})
             continue
         mk = [k for k in ref if k in m["model"] and m["model"][k] != ref[k]]
